@@ -10,5 +10,6 @@ for d in "$(pwd)"/seeded/C*/; do
   out=$(bin/vcheck $id quick 2>&1); rc=$?
   git -C /repo checkout -- . ; git -C /repo clean -fdq
   n=$(echo "$out" | grep -c "^VIOLATION")
-  if [ $rc -eq 1 ] && [ $n -gt 0 ]; then echo "$name CAUGHT rc=$rc violations=$n"; else echo "$name MISSED rc=$rc violations=$n :: $(echo "$out" | tail -2 | tr '\n' ' ' | cut -c1-200)"; fi
+  expected_miss=$(python3 -c "import json;print('yes' if json.load(open('$d/meta.json')).get('caught_by','').startswith('NOT CAUGHT') else 'no')")
+  if [ $rc -eq 1 ] && [ $n -gt 0 ]; then echo "$name CAUGHT rc=$rc violations=$n"; elif [ "$expected_miss" = "yes" ]; then echo "$name NOT-CAUGHT (recorded as outside the technique) rc=$rc :: $(echo "$out" | grep '^NOTE' | head -1 | cut -c1-160)"; else echo "$name MISSED rc=$rc violations=$n :: $(echo "$out" | tail -2 | tr '\n' ' ' | cut -c1-200)"; fi
 done
